@@ -416,6 +416,10 @@ func c18Iface(c *fw.Case) (o fw.Outcome) {
 			o.Fail(v.Key, "traffic mode: %s\n conversation:%s", v.Msg, conversationSummary(res.AMF, 40))
 			return
 		}
+		if res.TimedOut && strings.HasPrefix(res.BlockedIn, "unstable") {
+			o.Inconcl("traffic mode run: watchdog fired, emulator in %q", res.BlockedIn)
+			return
+		}
 		if res.TimedOut || res.AMF.RegDone != cfg.UeNumber || len(res.AMF.Sessions) != cfg.UeNumber {
 			o.Fail("ue-number", "traffic mode with ue_number %d: %d registrations and %d sessions seen by the network (timeout %v)\n stdout: %s", cfg.UeNumber, res.AMF.RegDone, len(res.AMF.Sessions), res.TimedOut, tail(res.Stdout, 300))
 		}
